@@ -193,6 +193,12 @@ func (m *UnboundedSegmentedMailbox) Dequeue() *ReceiveContext {
 		if next == nil {
 			return nil
 		}
+		// a successor is linked only after every slot of this segment has been
+		// reserved; a slot filled since the writeIdx snapshot above must be
+		// delivered before the segment is left behind and recycled
+		if deq < segmentSize {
+			continue
+		}
 		// recycle old head
 		m.head.Store(next)
 		seg.next.Store(nil)
